@@ -47,8 +47,9 @@ MANIFEST = dict(
           "(lean/templates/EpochCore.lean, EpochOps.lean) and its correspondence run; the idealisation binary64 -> "
           "Rat (modelled, measured, not proved); the harness's mapping of each Python call to one constructor of "
           "the model's argument-shape type; float.__hash__ is opaque. Well-typed calls only (int year, month "
-          "int/float/str, numeric day/h/m/s); kwargs utc/leap_seconds/local belong to C10. Known finding: the "
-          "h/m/s form rounds 1582-10-04 23:59:59.99999999999 up to day 5.0 and lands 10 days early."),
+          "int/float/str, numeric day/h/m/s); kwargs utc/leap_seconds/local belong to C10. The evening of "
+          "1582-10-04 with h/m/s that round the day up to 5.0 (former finding, repaired in _compute_jde) is a "
+          "boundary class of the predicates and of theorem reform_eve_day_continuous."),
     technique="Lean 4 proof over Rat (floor/fract algebra on top of C01's calendar bijection) + model/implementation correspondence check + clause predicates on the implementation",
     ref='6 C02')
 
@@ -187,16 +188,6 @@ def check_monotone(ctx, Epoch, j1, j2, klass='monotone'):
 
 
 # ------------------------------------------------------------------ clause 2: input forms
-def fold_rule(d, h, mi, s):
-    """Rule for the exact model on a constructor call: when binary64 rounds `day + h/24 + mi/1440 + s/86400`
-    up to the next whole day the ideal program is on the other side of a discontinuity of `iint(d)` (the
-    calendar test of _compute_jde); only the binary64 model is compared there."""
-    fday = d + (h / 24.0 + mi / 1440.0 + s / 86400.0)
-    if fday == math.floor(fday) and (h, mi, s) != (0, 0, 0):
-        return None
-    return ('abs', TOL_RT)
-
-
 def mixed_case(rng, s):
     return ''.join(c.upper() if rng.random() < 0.5 else c.lower() for c in s)
 
@@ -205,7 +196,7 @@ def check_forms(ctx, Epoch, y, m, d, h, mi, s, klass, names=None):
     """One instant (integer d, h, mi; s float or int) through every documented signature."""
     inp = [y, m, d, h, mi, s]
     ref_out = run_impl(lambda: Epoch(y, m, d, h, mi, s).jde())
-    qr = fold_rule(d, h, mi, s)
+    qr = ('abs', TOL_RT)
     ctx.case('set_many', [y, m, d, [h, mi, s]], ref_out, q=qr, klass='set_many/' + klass)
     if not ref_out.startswith('f'):
         ctx.predicate('valid_instant_accepted', False, inp, ref_out, klass)
@@ -526,7 +517,7 @@ def generate(ctx, shard=0, nshards=1):
                                  (2000, 1, 31, 23, math.nextafter(60.0, 0.0)), (1582, 10, 4, 23.5, 29.5)):
             # fractional hours / minutes: the separate-value form against the instant it denotes
             out = run_impl(lambda: Epoch(y, m, d, h, mi).jde())
-            ctx.case('set_many', [y, m, d, [h, mi]], out, q=fold_rule(d, h, mi, 0), klass='set_many/fractional_hm')
+            ctx.case('set_many', [y, m, d, [h, mi]], out, q=('abs', TOL_RT), klass='set_many/fractional_hm')
             exact = instant(y, m, d, h, mi, 0)
             ok = out.startswith('f') and abs(Fraction(_f(out)) - exact) <= Fraction(TOL_FORM)
             ctx.predicate('form_matches_instant', ok, [y, m, d, h, mi, 0], {'jde': out, 'expected': float(exact)}, 'forms_boundary')
@@ -628,8 +619,8 @@ def generate(ctx, shard=0, nshards=1):
             j2 = rng.choice(srt) if srt else rng.uniform(0.0, JMAX)
         check_order(ctx, Epoch, j1, j2, 'order')
     ctx.sample({'call': 'Epoch(2436116.31).get_full_date()', 'expected': [1957, 10, 4, 19, 26, 24.0]})
-    ctx.sample({'call': 'Epoch(1582, 10, 4, 23, 59, 59.99999999999).jde()', 'expected': 2299160.5, 'actual': 2299150.5,
-                'note': 'known finding'})
+    ctx.sample({'call': 'Epoch(1582, 10, 4, 23, 59, 59.99999999999).jde()', 'expected': 2299160.5,
+                'note': 'the folded day rounds up to 5.0; was 2299150.5 before the repair of _compute_jde'})
 
 
 # ------------------------------------------------------------------ known findings, replay
